@@ -605,3 +605,4 @@ LEVEL_NOTE = ("the model is tied to the code by differential testing through rea
     ' Known findings K9 (separators made of the mark characters space ( ) - +) and K10 (integers >= 2**53 up-cast to float by pandas) are outside the generated domain and replayed separately on every run.')
 TECHNIQUE = "Lean 4 proof (string-level implementation model = component-level specification) + correspondence check against the real library"
 RULE = RULE + " Fourth session: the caller's attr_list must be unchanged (also across two calls), the second tree may come with a separator of its own, listed attributes may be properties of a user subclass, two trees with more than 1000 merged paths and the differences at the end."
+RULE = RULE + ' Fifth session: in the two-call histories the compared request is the last call before the in-place edit; >1000-row trees with a directory next to siblings named like it plus a character sorting before the separator.'
